@@ -2,6 +2,7 @@ package main
 
 import (
 	"fmt"
+	"reflect"
 	"strings"
 	"time"
 
@@ -137,6 +138,7 @@ func runC17(r *Run) {
 			r.Discharge()
 		}
 	}
+	c17CommitFlush(r)
 	r.Extra["positions_checked"] = total
 	r.Bounds["instances"] = "quick: test_circuit and the 97-input circuit restricted to k in {1,2} query rounds; thorough: all five proofs, k in {1,2,4,28}; both wrappers"
 	r.Bounds["values"] = "every value in [0,r) for every position simultaneously (covers value + k*p for every k that fits)"
@@ -171,4 +173,49 @@ func stripIdx(p string) string {
 		}
 	}
 	return sb.String()
+}
+
+
+// c17CommitFlush: under the commitment-based range checker a range check only takes effect when the
+// chip's deferred checkCollected forwards it. The verifier is walked with that checker and the real
+// RangeCheck body; every call of rangeCheckerCheck is counted, and the list that checkCollected is
+// about to forward must contain all of them (checks collected on another copy of the chip are lost).
+func c17CommitFlush(r *Run) {
+	in := loadInstance(r.Repo, "test_circuit").restrict(1)
+	calls, flushed := 0, -1
+	extra := map[string]hookFn{
+		"goldilocks.Chip.rangeCheckerCheck": observe("goldilocks.Chip.rangeCheckerCheck", func(recv any, args []any) { calls++ }),
+		"goldilocks.Chip.checkCollected": func(recv any, args []any) []any {
+			n := reflect.ValueOf(recv).Elem().FieldByName("rangeCheckCollected").Len()
+			if n > flushed {
+				flushed = n
+			}
+			return []any{nil}
+		},
+	}
+	w := walkVerifier(in, walkOpts{Wrapper: "verifier", Cap: capCommit, Field: true, PermGL: true, PermBN: true, NoShape: true, Extra: extra,
+		Unhook: []string{"goldilocks.Chip.RangeCheck", "goldilocks.Chip.RangeCheckWithMaxBits"}})
+	if w.Panic != "" || w.Err != nil {
+		r.Infra("commit-configuration walk failed: %s %v", short(w.Panic, 200), w.Err)
+		return
+	}
+	r.Extra["commit_range_checks_collected"] = calls
+	r.Extra["commit_range_checks_forwarded"] = flushed
+	if flushed < 0 {
+		r.Infra("commit-configuration walk: checkCollected was not run (is the commit checker still selected for a committing builder?)")
+		return
+	}
+	if flushed >= calls {
+		return
+	}
+	// some collected checks never reach gnark: confirm on the real circuit under the commit checker with
+	// a non-canonical final-polynomial coefficient (full proof: the commit checker refuses small circuits)
+	cr := &circuitReplay{Kind: "circuit", Wrapper: "verifier", Instance: in.Base, K: 0, Expect: "accepted", Commit: true, Lenient: true,
+		Edits: []edit{{Path: ".Proof.OpeningProof.FinalPoly.Coeffs[0][0].Limb", Add: P.String()}}}
+	what := fmt.Sprintf("under the commitment-based range checker %d range checks are collected but only %d are forwarded by the deferred checkCollected: the others never take effect", calls, flushed)
+	if acc, msg := runCircuitReplay(cr, r.Repo); acc {
+		r.addViolationWithReplay("range checks not forwarded under the commit checker", what+"; the valid proof with a final-polynomial coefficient + p is accepted", toMap(cr), "real circuit (test.IsSolved, commitment-based checker, hint code that does not refuse operands >= p) accepts the non-canonical encoding")
+	} else {
+		r.Infra("%s -- but the real circuit rejects final-polynomial coefficient + p (%s)", what, short(msg, 80))
+	}
 }
